@@ -38,7 +38,7 @@ def run(chk):
     seen = set()
     for o in sd_outs:
         for ob, msg in judge_set_data(o):
-            key = {"zero": f"{sd.key}|zero-to-nan", "copy": f"{sd.key}|copy-first", "order": f"{sd.key}|order"}[ob]
+            key = {"zero": f"{sd.key}|zero-to-nan", "copy": f"{sd.key}|copy-first", "order": f"{sd.key}|order", "index": f"{sd.key}|timestamps-kept"}[ob]
             if (key, msg[:70]) in seen:
                 continue
             seen.add((key, msg[:70]))
